@@ -100,8 +100,8 @@ Section Issuance.
          | Panic => Panic
          end.
   (** ---- Issuer::blind_sign_credential, the issuer's own part: the claims it supplies itself are checked
-      like directly issued ones, each at the schema position of its label (here: its index); the map is
-      walked in label order and the last revocation claim met is the credential's identifier ---- *)
+      like directly issued ones, each at the schema position of its label (here: its index), and exactly
+      one of them is a revocation claim ---- *)
   Fixpoint check_known (known : list (nat * claim)) (sch : list claim_schema) (found : option bytes) : res (option bytes) :=
     match known with
     | [] => Ok found
@@ -111,7 +111,15 @@ Section Issuance.
         | Some ts =>
             if negb (is_type c (cs_type ts)) then Err
             else match schema_valid (cs_validators ts) c true with
-                 | Some true => check_known t sch (match c with CRevocation i => Some i | _ => found end)
+                 | Some true =>
+                     match c with
+                     | CRevocation i =>
+                         match found with
+                         | Some _ => Err                       (* multiple revocation claims *)
+                         | None => check_known t sch (Some i)
+                         end
+                     | _ => check_known t sch found
+                     end
                  | _ => Err
                  end
         end
